@@ -54,7 +54,7 @@ type batOpts struct {
 	startLateP  float64 // some calls before Start
 	setterP     float64
 	horizonMin  int64 // keep running at least this long before the final stop
-	lateOnly    bool    // with a never-returning callback present, allow the tail to be long
+	lateOnly    bool  // with a never-returning callback present, allow the tail to be long
 }
 
 func defaultBatOpts() batOpts {
